@@ -180,7 +180,7 @@ def hint_section_mutations(rng, p, sig):
     nonempty = [i for i in range(k) if counts[i] - starts[i] >= 1]
     if total < omega and nonempty:
         # duplicate an index into a free slot: the decoded hint *set* is unchanged, only canonicity can reject
-        for i in (nonempty[0], nonempty[-1]):
+        for i in sorted(set([nonempty[0], nonempty[-1]] + [j for j in nonempty if y[starts[j]] == 0][:2])):
             a = starts[i]
             yy = bytearray(y[:a + 1]) + bytearray([y[a]]) + bytearray(y[a + 1:omega - 1]) + bytearray(y[omega:])
             for j in range(i, k):
@@ -206,3 +206,73 @@ def hint_section_mutations(rng, p, sig):
         yy = bytearray(y); yy[omega + k - 1] = total - 1
         emit('last count below the number of listed indices (leftover non-zero byte)', yy)
     return out
+
+
+# ------------------------------------------------------------------ private keys whose t = A s1 + s2 sits on the reduction boundary
+def boundary_t_keys(rng, s, want=2, max_rho=400):
+    """Accepted (dishonest) private keys for which a coefficient of NTT^-1(A s1) + s2 falls *outside* [0, q): at or above q
+    (needs (A s1)_ij in [q - eta, q - 1] and s2_ij = +eta) or below 0.  s1 is c * X^0 in one polynomial, so A s1 is c times one
+    column entry of A in coefficient form; rho is searched until such an entry exists (about 1% per rho).
+    Returns [(tag, sk bytes, expected pk bytes)]"""
+    p = R.PARAMS[s]
+    eta, k, l = p['eta'], p['k'], p['l']
+    out = []
+    tried = 0
+    while len([o for o in out if o[0].startswith('t >= q')]) < want and tried < max_rho:
+        tried += 1
+        rho = bytes(rng.randrange(256) for _ in range(32))
+        hit = None
+        for i in range(k):
+            for lp in range(l):
+                a = R.intt(R.rej_ntt_poly(rho + bytes([lp, i])))
+                for j, v in enumerate(a):
+                    for c in range(-eta, eta + 1):
+                        if c and (c * v) % Q >= Q - eta:
+                            hit = (i, lp, j, c, (c * v) % Q)
+                            break
+                    if hit:
+                        break
+                if hit:
+                    break
+            if hit:
+                break
+        if not hit:
+            continue
+        i, lp, j, c, w = hit
+        s1 = [[0] * 256 for _ in range(l)]
+        s1[lp][0] = c
+        s2 = [[0] * 256 for _ in range(k)]
+        s2[i][j] = eta                     # t_ij = w + eta >= q  (must be reduced)
+        if j + 1 < 256:
+            s2[i][(j + 1) % 256] = -eta    # and a neighbour that may go negative
+        t0 = [[rng.randrange(-4095, 4097) for _ in range(256)] for _ in range(k)]
+        K = bytes(rng.randrange(256) for _ in range(32))
+        tr = bytes(rng.randrange(256) for _ in range(64))
+        sk = R.sk_encode(p, rho, K, tr, s1, s2, t0)
+        A = R.expand_a(p, rho)
+        t = R.vadd([R.intt(x) for x in R.matvec(A, [R.ntt(x) for x in s1])], s2)
+        t1 = [[R.power2round(cf)[0] for cf in poly] for poly in t]
+        out.append((f't >= q before reduction (w={w}, +eta)', sk, R.pk_encode(p, rho, t1)))
+    # t < 0: s1 = 0, s2 negative everywhere
+    rho = bytes(rng.randrange(256) for _ in range(32))
+    s1 = [[0] * 256 for _ in range(l)]
+    s2 = [[-eta if (a + b) % 2 else eta for b in range(256)] for a in range(k)]
+    t0 = [[0] * 256 for _ in range(k)]
+    sk = R.sk_encode(p, rho, bytes(32), bytes(64), s1, s2, t0)
+    t1 = [[R.power2round(cf % Q)[0] for cf in poly] for poly in s2]
+    out.append(('t negative before reduction (s1 = 0, s2 = -eta)', sk, R.pk_encode(p, rho, t1)))
+    return out
+
+
+def boundary_seeds(s, want=2, span=48000):
+    """honest seeds whose t has a coefficient >= q before the final reduction (about 1e-4 per key), found by a parallel
+    search inside rust_exec with the crate's own primitives (a search, not an oracle)"""
+    import core
+    shards = 16
+    step = span // shards
+    outs = core.run_stream([core.RUST['fast']], [f"find_tq {s} {i * step} {step} {want}" for i in range(shards)])
+    seeds = []
+    for o in outs:
+        if o and o != 'none' and not o.startswith(('panic', 'harness')):
+            seeds += [bytes.fromhex(x) for x in o.split(',')]
+    return seeds[:want]
